@@ -634,6 +634,10 @@ func (env *Env) nilCompare(v Val) (string, error) {
 		}
 		return sEq(v.T, "0"), nil
 	}
+	if _, isStruct := v.Typ.Underlying().(*types.Struct); isStruct {
+		// a struct embedded by value, named where a specification function expects a pointer to it: never nil
+		return "false", nil
+	}
 	return "", fmt.Errorf("cannot compare %s with nil", v.Typ)
 }
 
